@@ -383,12 +383,12 @@ class SIunitxFormatter(BaseFormatter):
         # and uncertainty, and doesn't accept "+/-"
         # SIunitx doesn't accept parentheses, which uncs uses with
         # scientific notation ('e' or 'E' and sometimes 'g' or 'G').
-        return (
-            format(uncertainty, unc_spec)
-            .replace("+/-", r" +- ")
-            .replace("(", "")
-            .replace(")", " ")
-        )
+        unc_str = format(uncertainty, unc_spec)
+        if "+/-" not in unc_str:
+            # Shorthand notation, e.g. 4.000(100): understood by SIunitx as it is;
+            # without its parentheses the uncertainty would fuse with the value.
+            return unc_str
+        return unc_str.replace("+/-", r" +- ").replace("(", "").replace(")", " ")
 
     def format_measurement(
         self,
